@@ -1195,6 +1195,31 @@ def run(ck, tier, rng):
                 except Exception as e:  # noqa
                     ck.notes.append("primed trial crashed: %s %s %r: %r" % (k.name, p.attr, v, e))
 
+    # ---- oracle with every sibling property set explicitly first: an assignment must not disturb them
+    stats["siblings_primed"] = 0
+    for k in kinds:
+        if len(k.props) < 2:
+            continue
+        for p in k.props:
+            vals = [v for v in p.valid if v is not None][:2] + ([None] if p.none else [])
+            if not vals:
+                continue
+
+            def prep(obj, k=k, p=p):
+                for q in k.props:
+                    if q is p or (p.group is not None and q.group == p.group):
+                        continue
+                    cand = [v for v in q.valid if v is not None and not (q.truthy and not v)]
+                    if cand:
+                        setp(obj, q.attr, cand[-1] if len(cand) > 1 else cand[0])
+            for v in vals:
+                try:
+                    oracle_trial(ck, k, p, v, "valid", reopen=quick is False, stats=stats, where="siblings set", prepare=prep,
+                                 prep_spec={"siblings": True})
+                    stats["siblings_primed"] += 1
+                except Exception as e:  # noqa
+                    ck.notes.append("sibling trial crashed: %s %s %r: %r" % (k.name, p.attr, v, e))
+
     # ---- correspondence on fresh objects: random histories
     cases, expect = [], []
     n_hist = 12 if quick else 120
@@ -1328,6 +1353,13 @@ def replay(rec):
         strip(k.anchor(obj), prep["strip"], k.nv)
     if "assign" in prep:
         setp(obj, p.attr, val_from_spec(prep["assign"]))
+    if prep.get("siblings"):
+        for q in k.props:
+            if q is p or (p.group is not None and q.group == p.group):
+                continue
+            cand = [x for x in q.valid if x is not None and not (q.truthy and not x)]
+            if cand:
+                setp(obj, q.attr, cand[-1] if len(cand) > 1 else cand[0])
     obj = k.nav(prs)
     part = part_of(k, prs, obj)
     st0 = model_state(k, obj)
